@@ -1,6 +1,11 @@
 package main
 
-import "verif/codec"
+import (
+	"fmt"
+	"os"
+
+	"verif/codec"
+)
 
 func init() {
 	props["C07"] = &propInfo{Level: "exploration",
@@ -10,6 +15,20 @@ func init() {
 			var out []JobDef
 			for _, n := range codec.Jobs(tier) {
 				out = append(out, JobDef{Name: n, Args: []string{"job", "-prop", "C07", "-tier", tier, "-universe", n}})
+			}
+			// GOARCH=386 build: the 4-byte branch of uint/int
+			if bin := os.Getenv("VERIF_BIN_386"); bin != "" {
+				for _, t := range []string{"uint", "int"} {
+					if tier == "thorough" {
+						for s := 0; s < 8; s++ {
+							n := fmt.Sprintf("codec/%s/full/%d/8", t, s)
+							out = append(out, JobDef{Name: n + "@386", Bin: bin, Args: []string{"job", "-prop", "C07", "-tier", tier, "-universe", n}})
+						}
+					} else {
+						n := "codec/" + t + "/windows/0/1"
+						out = append(out, JobDef{Name: n + "@386", Bin: bin, Args: []string{"job", "-prop", "C07", "-tier", tier, "-universe", n}})
+					}
+				}
 			}
 			return out
 		}}
